@@ -1,5 +1,7 @@
 /-
-Helper lemmas for C10/C02: run-level invariants of the session state machine.  Core Lean only.
+Helper lemmas for C10/C02: run-level invariants of the session state machine — well-shaped
+sessions, sessions of one key a full timeout apart, the gap clause inside every session.
+Core Lean only.
 -/
 import SsqlVerif.Proofs.Session
 import SsqlVerif.Proofs.TumblingInv
@@ -17,7 +19,11 @@ most the timeout) -/
 def Chain (timeout start : Int) (rows : List Row) : Prop :=
   ∀ r ∈ rows, r.ts = start ∨ ∃ r' ∈ rows, r'.ts < r.ts ∧ r.ts - r'.ts ≤ timeout
 
-theorem chain_new (k : Key) (r : Row) (timeout : Int) : Chain timeout (newSess k r timeout).start (newSess k r timeout).rows := by
+/-- two sessions a full timeout apart: one ends (last event + timeout) at or before the other starts -/
+def Apart (a b : Sess) : Prop := a.stop ≤ b.start ∨ b.stop ≤ a.start
+
+theorem chain_new (k : Key) (r : Row) (timeout : Int) (p : Nat) :
+    Chain timeout (newSess k r timeout p).start (newSess k r timeout p).rows := by
   intro x hx; simp [newSess] at hx; subst hx; exact Or.inl rfl
 
 /-- in a well-shaped chained session every instant above the start and below the end has a row
@@ -28,8 +34,7 @@ theorem exists_pred (timeout : Int) (s : Sess) (hok : SessOk timeout s) (hc : Ch
   by_cases hbig : s.lastActive < t
   · obtain ⟨m, hm, hmt⟩ := hok.hmax
     exact ⟨m, hm, by omega, by have := hok.hstop; omega⟩
-  · -- some row is at or above t: walk down the chain
-    have key : ∀ n : Nat, ∀ x ∈ s.rows, t ≤ x.ts → (x.ts - t).toNat = n →
+  · have key : ∀ n : Nat, ∀ x ∈ s.rows, t ≤ x.ts → (x.ts - t).toNat = n →
         ∃ r' ∈ s.rows, r'.ts < t ∧ t - r'.ts ≤ timeout := by
       intro n
       induction n using Nat.strongRecOn with
@@ -43,157 +48,265 @@ theorem exists_pred (timeout : Int) (s : Sess) (hok : SessOk timeout s) (hc : Ch
     obtain ⟨m, hm, hmt⟩ := hok.hmax
     exact key _ m hm (by omega) rfl
 
-theorem chain_extend (s : Sess) (r : Row) (timeout : Int) (hok : SessOk timeout s)
-    (hc : Chain timeout s.start s.rows) (hlow : s.start < r.ts + timeout) (hhigh : r.ts < s.stop) :
-    Chain timeout (extend s r timeout).start (extend s r timeout).rows := by
+theorem sess_start_lt_stop (timeout : Int) (s : Sess) (hok : SessOk timeout s) (ht : 0 < timeout) : s.start < s.stop := by
+  obtain ⟨m, hm, hmt⟩ := hok.hmin
+  have := (hok.hbounds m hm).2
+  have := hok.hstop
+  omega
+
+theorem minStart_eq_init (l : List Sess) (m : Int) (h : ∀ s ∈ l, m ≤ s.start) : minStart l m = m := by
+  rcases minStart_attained l m with h1 | ⟨s, hs, h1⟩
+  · exact h1
+  · have := minStart_le_init l m
+    have := h s hs
+    omega
+
+theorem minStart_eq_least (l : List Sess) (m : Int) (s : Sess) (hs : s ∈ l)
+    (hleast : ∀ s' ∈ l, s.start ≤ s'.start) (hm : s.start ≤ m) : minStart l m = s.start := by
+  have h1 := minStart_le_mem l m s hs
+  rcases minStart_attained l m with h2 | ⟨s', hs', h2⟩
+  · omega
+  · have := hleast s' hs'; omega
+
+/-- the session obtained by merging chained, mutually apart sessions that the row touches is chained -/
+theorem merged_chain (timeout : Int) (ht : 0 < timeout) (k : Key) (t : Sess) (os : List Sess) (r : Row)
+    (hok : ∀ s ∈ t :: os, SessOk timeout s)
+    (hch : ∀ s ∈ t :: os, Chain timeout s.start s.rows)
+    (htouch : ∀ s ∈ t :: os, touches timeout k r.ts s = true)
+    (hapart : ∀ a ∈ t :: os, ∀ b ∈ t :: os, a.start < b.start → Apart a b) :
+    Chain timeout (merged timeout t os r).start (merged timeout t os r).rows := by
+  have htch : ∀ s ∈ t :: os, s.start - timeout < r.ts ∧ r.ts < s.stop := by
+    intro s hs
+    have := htouch s hs
+    simp only [touches, Bool.and_eq_true, decide_eq_true_eq] at this
+    exact ⟨this.1.2, this.2⟩
+  have hsub : ∀ s ∈ t :: os, ∀ x ∈ s.rows, x ∈ (merged timeout t os r).rows :=
+    fun s hs x hx => (merged_rows_mem timeout t os r x).mpr (Or.inr ⟨s, hs, hx⟩)
+  have hrm : r ∈ (merged timeout t os r).rows := (merged_rows_mem timeout t os r r).mpr (Or.inl rfl)
   intro x hx
-  simp only [extend, List.mem_append, List.mem_singleton] at hx ⊢
-  by_cases hmin : r.ts < s.start
-  · simp only [hmin, if_true]
-    rcases hx with hx | hx
-    · rcases hc x hx with hst | ⟨p, hp, hpl, hpd⟩
-      · right; exact ⟨r, Or.inr rfl, by omega, by omega⟩
-      · right; exact ⟨p, Or.inl hp, hpl, hpd⟩
-    · left; rw [hx]
-  · simp only [hmin, if_false]
-    rcases hx with hx | hx
-    · rcases hc x hx with hst | ⟨p, hp, hpl, hpd⟩
-      · exact Or.inl hst
-      · exact Or.inr ⟨p, Or.inl hp, hpl, hpd⟩
-    · subst hx
-      by_cases heq : x.ts = s.start
-      · exact Or.inl heq
-      · obtain ⟨p, hp, hpl, hpd⟩ := exists_pred timeout s hok hc x.ts (by omega) hhigh
-        exact Or.inr ⟨p, Or.inl hp, hpl, hpd⟩
+  show x.ts = minStart (t :: os) r.ts ∨ _
+  rcases (merged_rows_mem timeout t os r x).mp hx with hxr | ⟨s, hs, hxs⟩
+  · subst hxr
+    by_cases hbelow : ∃ s ∈ t :: os, s.start < x.ts
+    · obtain ⟨s, hs, hlt⟩ := hbelow
+      obtain ⟨p, hp, h1, h2⟩ := exists_pred timeout s (hok s hs) (hch s hs) x.ts hlt (htch s hs).2
+      exact Or.inr ⟨p, hsub s hs p hp, h1, h2⟩
+    · left
+      symm
+      apply minStart_eq_init
+      intro s hs
+      rcases Int.lt_or_le s.start x.ts with h | h
+      · exact absurd ⟨s, hs, h⟩ hbelow
+      · exact h
+  · rcases hch s hs x hxs with hst | ⟨p, hp, h1, h2⟩
+    · by_cases hr : r.ts < s.start
+      · right
+        exact ⟨r, hrm, by omega, by have := (htch s hs).1; omega⟩
+      · left
+        rw [hst]; symm
+        apply minStart_eq_least (t :: os) r.ts s hs
+        · intro s' hs'
+          rcases Int.lt_or_le s'.start s.start with hlt | hge
+          · exfalso
+            have hss := sess_start_lt_stop timeout s (hok s hs) ht
+            rcases hapart s' hs' s hs hlt with h | h
+            · have := (htch s' hs').2; omega
+            · omega
+          · exact hge
+        · omega
+    · exact Or.inr ⟨p, hsub s hs p hp, h1, h2⟩
 
-/-- hypothesis H of the partial theorem, on one op in a state: an on-time row that joins its key's
-open session is not a full timeout or more below that session's start -/
-def gapOk (w : SWin) (r : Row) : Fate → Prop
-  | .extendHead h => h.start < r.ts + w.timeout
-  | _ => True
+/-- symmetric reading of a pairwise relation -/
+theorem pairwise_both {α : Type} (R : α → α → Prop) (hsym : ∀ a b, R a b → R b a) (l : List α)
+    (h : l.Pairwise R) : ∀ a ∈ l, ∀ b ∈ l, a ≠ b → R a b := by
+  induction l with
+  | nil => intro a ha; cases ha
+  | cons x l ih =>
+    rw [List.pairwise_cons] at h
+    intro a ha b hb hne
+    rcases List.mem_cons.mp ha with rfl | ha' <;> rcases List.mem_cons.mp hb with rfl | hb'
+    · exact absurd rfl hne
+    · exact h.1 b hb'
+    · exact hsym _ _ (h.1 a ha')
+    · exact ih h.2 a ha' b hb' hne
 
-instance (w : SWin) (r : Row) (f : Fate) : Decidable (gapOk w r f) := by
-  cases f <;> simp only [gapOk] <;> infer_instance
+def SameKeyApart (a b : Sess) : Prop := a.key = b.key → Apart a b
 
-def NoAcrossGap (w : SWin) : Op → Prop
-  | .add k r now => gapOk w r (fate w k r now)
-  | _ => True
+theorem sameKeyApart_symm (a b : Sess) (h : SameKeyApart a b) : SameKeyApart b a := by
+  intro hk
+  rcases h hk.symm with h1 | h1
+  · exact Or.inr h1
+  · exact Or.inl h1
 
-instance (w : SWin) (op : Op) : Decidable (NoAcrossGap w op) := by
-  cases op <;> simp only [NoAcrossGap] <;> infer_instance
-
-def NoAcrossGapAll (w : SWin) : List Op → Prop
-  | [] => True
-  | op :: ops => NoAcrossGap w op ∧ NoAcrossGapAll (step w op).1 ops
-
-def decNoAcrossGapAll : (w : SWin) → (ops : List Op) → Decidable (NoAcrossGapAll w ops)
-  | _, [] => isTrue trivial
-  | w, op :: ops => @instDecidableAnd _ _ _ (decNoAcrossGapAll (step w op).1 ops)
-
-instance (w : SWin) (ops : List Op) : Decidable (NoAcrossGapAll w ops) := decNoAcrossGapAll w ops
-
-def AllChain (w : SWin) : Prop := ∀ s ∈ w.sessions, Chain w.timeout s.start s.rows
-
-theorem fate_extend_high (w : SWin) (k : Key) (r : Row) (now : Int) (h : Sess) (hf : fate w k r now = .extendHead h) :
-    r.ts < h.stop := by
-  unfold fate at hf
-  split at hf
-  · split at hf
-    · unfold lateFate at hf; split at hf <;> cases hf
-    · cases hf
-  · unfold onTimeFate at hf
-    split at hf
-    · cases hf
-    · unfold headFate at hf
-      split at hf
-      · cases hf
-      · rename_i hns; cases hf; omega
-
-theorem head?_mem (w : SWin) (k : Key) (h : Sess) (hh : head? w k = some h) : h ∈ w.sessions ∧ isHead k h = true := by
-  unfold head? at hh
-  exact ⟨List.mem_of_find?_eq_some hh, List.find?_some hh⟩
-
-theorem allChain_add (w : SWin) (k : Key) (r : Row) (now : Int) (hok : AllOk w) (hu : HeadsUnique w)
-    (hc : AllChain w) (hH : NoAcrossGap w (.add k r now)) : AllChain (stepAdd w k r now).1 := by
-  intro s hs
-  have hs' : s ∈ addSessions w k r now := hs
-  show Chain w.timeout s.start s.rows
-  unfold addSessions at hs'
-  split at hs'
-  · simp only [List.mem_append, List.mem_singleton] at hs'
-    rcases hs' with hs' | hs'
-    · exact hc s hs'
-    · subst hs'; exact chain_new k r w.timeout
-  · simp only [List.mem_append, List.mem_singleton] at hs'
-    rcases hs' with hs' | hs'
-    · rcases replaceHead_mem _ _ _ _ hs' with ⟨h1, _⟩ | ⟨y, hy, _, rfl⟩
-      · exact hc s h1
-      · exact hc y hy
-    · subst hs'; exact chain_new k r w.timeout
-  · rename_i hd hf
-    rcases replaceHead_mem _ _ _ _ hs' with ⟨h1, _⟩ | ⟨y, hy, hyh, rfl⟩
-    · exact hc s h1
-    · -- y is the head, and the head is unique
-      have hhd := head?_mem w k hd (fate_extend_head w k r now hd hf)
-      have hflt := head?_some_filter w k hd hu (fate_extend_head w k r now hd hf)
-      have hy' : y ∈ w.sessions.filter (isHead k) := List.mem_filter.mpr ⟨hy, hyh⟩
-      rw [hflt, List.mem_singleton] at hy'
-      subst hy'
-      have hlow : y.start < r.ts + w.timeout := by
-        have := hH; simp only [NoAcrossGap, hf, gapOk] at this; exact this
-      exact chain_extend y r w.timeout (hok y hy) (hc y hy) hlow (fate_extend_high w k r now y hf)
-  · exact hc s hs'
-
-/-! ### all invariants together, over runs -/
+/-! ### all invariants together -/
 
 structure Inv (w : SWin) : Prop where
   hok : AllOk w
-  hu : HeadsUnique w
+  hchain : ∀ s ∈ w.sessions, Chain w.timeout s.start s.rows
+  hsep : w.sessions.Pairwise SameKeyApart
   hchan : ∀ x ∈ w.wm.chan, leOpt x w.wm.cur
   htime : 0 < w.timeout
 
 theorem inv_init (timeout ooo lateness : Int) (ht : 0 < timeout) : Inv (init timeout ooo lateness) :=
   { hok := by intro s hs; cases hs
-    hu := by intro k; simp [init]
+    hchain := by intro s hs; cases hs
+    hsep := List.Pairwise.nil
     hchan := by intro x hx; cases hx
     htime := ht }
 
+theorem touches_key (timeout : Int) (k : Key) (ts : Int) (s : Sess) (h : touches timeout k ts s = true) : s.key = k := by
+  simp only [touches, Bool.and_eq_true, beq_iff_eq] at h
+  exact h.1.1
+
+theorem not_touches (timeout : Int) (k : Key) (ts : Int) (s : Sess) (h : touches timeout k ts s = false)
+    (hk : s.key = k) : ts ≤ s.start - timeout ∨ s.stop ≤ ts := by
+  simp only [touches, hk, beq_self_eq_true, Bool.true_and, Bool.and_eq_false_iff, decide_eq_false_iff_not] at h
+  omega
+
+theorem inv_add (w : SWin) (k : Key) (r : Row) (now : Int) (h : Inv w) : Inv (stepAdd w k r now).1 := by
+  have hchan' : ∀ x ∈ (stepAdd w k r now).1.wm.chan, leOpt x (stepAdd w k r now).1.wm.cur :=
+    fun x hx => Tumbling.updateEventTime_chan _ _ _ _ h.hchan hx
+  have hok' := allOk_add w k r now h.hok
+  refine { hok := hok', hchain := ?_, hsep := ?_, hchan := hchan', htime := h.htime }
+  · -- chain
+    intro s hs
+    have hs' : s ∈ addSessions w k r now := hs
+    show Chain w.timeout s.start s.rows
+    unfold addSessions at hs'
+    split at hs'
+    · simp only [List.mem_append, List.mem_singleton] at hs'
+      rcases hs' with hs' | hs'
+      · exact h.hchain s hs'
+      · subst hs'; exact chain_new k r w.timeout _
+    · rename_i t os hf
+      simp only [List.mem_append, List.mem_singleton, List.mem_filter] at hs'
+      rcases hs' with hs' | hs'
+      · exact h.hchain s hs'.1
+      · subst hs'
+        have ht := (fate_join_touched w k r now t os hf).1
+        have hmem : ∀ x ∈ t :: os, x ∈ w.sessions ∧ touches w.timeout k r.ts x = true := by
+          intro x hx
+          have : x ∈ touched w k r := by rw [ht]; exact hx
+          exact (mem_touched w k r x).mp this
+        apply merged_chain w.timeout h.htime k t os r
+        · intro x hx; exact h.hok x (hmem x hx).1
+        · intro x hx; exact h.hchain x (hmem x hx).1
+        · intro x hx; exact (hmem x hx).2
+        · intro a ha b hb hlt
+          have hne : a ≠ b := by intro he; rw [he] at hlt; omega
+          have := pairwise_both SameKeyApart sameKeyApart_symm w.sessions h.hsep a (hmem a ha).1 b (hmem b hb).1 hne
+          exact this (by rw [touches_key _ _ _ _ (hmem a ha).2, touches_key _ _ _ _ (hmem b hb).2])
+    · exact h.hchain s hs'
+  · -- separation
+    show (addSessions w k r now).Pairwise SameKeyApart
+    unfold addSessions
+    split
+    · rename_i hf
+      have ht := (fate_create_touched w k r now hf).1
+      rw [List.pairwise_append]
+      refine ⟨h.hsep, List.pairwise_singleton _ _, ?_⟩
+      intro a ha b hb
+      simp only [List.mem_singleton] at hb
+      subst hb
+      intro hk
+      have hnt : touches w.timeout k r.ts a = false := by
+        cases hc : touches w.timeout k r.ts a with
+        | false => rfl
+        | true =>
+          have : a ∈ touched w k r := (mem_touched w k r a).mpr ⟨ha, hc⟩
+          rw [ht] at this; cases this
+      rcases not_touches _ _ _ _ hnt hk with h1 | h1
+      · exact Or.inr (by show r.ts + w.timeout ≤ a.start; omega)
+      · exact Or.inl (by show a.stop ≤ r.ts; exact h1)
+    · rename_i t os hf
+      have ht := (fate_join_touched w k r now t os hf).1
+      have hmem : ∀ x ∈ t :: os, x ∈ w.sessions ∧ touches w.timeout k r.ts x = true := by
+        intro x hx
+        have : x ∈ touched w k r := by rw [ht]; exact hx
+        exact (mem_touched w k r x).mp this
+      rw [List.pairwise_append]
+      refine ⟨List.Pairwise.filter _ h.hsep, List.pairwise_singleton _ _, ?_⟩
+      intro u hu b hb
+      simp only [List.mem_singleton] at hb
+      subst hb
+      simp only [List.mem_filter, Bool.not_eq_true'] at hu
+      intro hk
+      have hku : u.key = k := by
+        rw [hk]; show t.key = k
+        exact touches_key _ _ _ _ (hmem t (by simp)).2
+      have husess := sess_start_lt_stop w.timeout u (h.hok u hu.1) h.htime
+      -- u is apart from every touched session
+      have hap : ∀ s ∈ t :: os, Apart u s := by
+        intro s hs
+        have hne : u ≠ s := by
+          intro he; rw [he] at hu; rw [(hmem s hs).2] at hu; cases hu.2
+        have := pairwise_both SameKeyApart sameKeyApart_symm w.sessions h.hsep u hu.1 s (hmem s hs).1 hne
+        exact this (by rw [hku, touches_key _ _ _ _ (hmem s hs).2])
+      have htch : ∀ s ∈ t :: os, s.start - w.timeout < r.ts ∧ r.ts < s.stop := by
+        intro s hs
+        have := (hmem s hs).2
+        simp only [touches, Bool.and_eq_true, decide_eq_true_eq] at this
+        exact ⟨this.1.2, this.2⟩
+      rcases not_touches _ _ _ _ hu.2 hku with h1 | h1
+      · -- u lies above: the merged session ends at or before u starts
+        right
+        show maxLast (t :: os) r.ts + w.timeout ≤ u.start
+        rcases maxLast_attained (t :: os) r.ts with hm | ⟨s, hs, hm⟩
+        · omega
+        · rw [hm]
+          have hst := (h.hok s (hmem s hs).1).hstop
+          rcases hap s hs with h2 | h2
+          · have := (htch s hs).1; omega
+          · omega
+      · -- u lies below: u ends at or before the merged session starts
+        left
+        show u.stop ≤ minStart (t :: os) r.ts
+        rcases minStart_attained (t :: os) r.ts with hm | ⟨s, hs, hm⟩
+        · omega
+        · rw [hm]
+          rcases hap s hs with h2 | h2
+          · exact h2
+          · have := (htch s hs).2; omega
+    · exact h.hsep
+
+theorem inv_expire (w : SWin) (x : Int) (h : Inv w) : Inv (stepExpire w x).1 :=
+  { hok := allOk_expire w x h.hok
+    hchain := by
+      intro s hs
+      simp only [stepExpire, List.mem_filter] at hs
+      exact h.hchain s hs.1
+    hsep := List.Pairwise.filter _ h.hsep
+    hchan := h.hchan
+    htime := h.htime }
+
 theorem inv_step (w : SWin) (op : Op) (h : Inv w) : Inv (step w op).1 := by
   cases op with
-  | add k r now =>
-    exact
-      { hok := allOk_add w k r now h.hok
-        hu := headsUnique_add w k r now h.hu
-        hchan := fun x hx => Tumbling.updateEventTime_chan _ _ _ _ h.hchan hx
-        htime := h.htime }
+  | add k r now => exact inv_add w k r now h
   | addNoTs => exact h
   | tick idle now =>
-    exact { hok := h.hok, hu := h.hu, hchan := fun x hx => Tumbling.tick_chan _ _ _ _ h.hchan hx, htime := h.htime }
+    exact { hok := h.hok, hchain := h.hchain, hsep := h.hsep,
+            hchan := fun x hx => Tumbling.tick_chan _ _ _ _ h.hchan hx, htime := h.htime }
   | deliver =>
     simp only [step, stepDeliver]
     split
     · exact h
     · rename_i x wm' hp
       obtain ⟨hmem, hcur, hsub⟩ := Tumbling.pop_mem _ _ _ hp
-      exact
-        { hok := allOk_expire _ x h.hok
-          hu := headsUnique_expire _ x h.hu
-          hchan := by
-            intro y hy
-            show leOpt y wm'.cur
-            rw [hcur]; exact h.hchan y (hsub y hy)
-          htime := h.htime }
+      have h' : Inv { w with wm := wm' } :=
+        { hok := h.hok, hchain := h.hchain, hsep := h.hsep, htime := h.htime
+          hchan := by intro y hy; show leOpt y wm'.cur; rw [hcur]; exact h.hchan y (hsub y hy) }
+      exact inv_expire _ x h'
 
 theorem inv_run (w : SWin) (ops : List Op) (h : Inv w) : Inv (run w ops).1 := by
   induction ops generalizing w with
   | nil => exact h
   | cons op ops ih => simp only [run]; exact ih _ (inv_step w op h)
 
-theorem step_conserve (w : SWin) (op : Op) (x : Row) (h : Inv w) :
+theorem step_conserve (w : SWin) (op : Op) (x : Row) :
     (openRows (step w op).1).count x + (firstRows (step w op).2).count x
       = (openRows w).count x + (acceptedBy w op).count x := by
   cases op with
-  | add k r now => exact add_conserve w k r now x h.hu
+  | add k r now => exact add_conserve w k r now x
   | addNoTs => simp [step, acceptedBy, firstRows]
   | tick idle now => simp [step, acceptedBy, firstRows, openRows]
   | deliver =>
@@ -207,14 +320,14 @@ theorem step_conserve (w : SWin) (op : Op) (x : Row) (h : Inv w) :
 theorem firstRows_append (a b : List Emission) : firstRows (a ++ b) = firstRows a ++ firstRows b := by
   simp [firstRows, List.filter_append]
 
-theorem run_conserve (w : SWin) (ops : List Op) (x : Row) (h : Inv w) :
+theorem run_conserve (w : SWin) (ops : List Op) (x : Row) :
     (openRows (run w ops).1).count x + (firstRows (run w ops).2).count x
       = (openRows w).count x + (acceptedRows w ops).count x := by
   induction ops generalizing w with
   | nil => simp [run, acceptedRows, firstRows]
   | cons op ops ih =>
-    have h1 := step_conserve w op x h
-    have h2 := ih (step w op).1 (inv_step w op h)
+    have h1 := step_conserve w op x
+    have h2 := ih (step w op).1
     simp only [run, acceptedRows, firstRows_append, List.count_append] at *
     omega
 
@@ -249,9 +362,11 @@ theorem leOpt_mono_step (w : SWin) (op : Op) (x : Int) (h : leOpt x w.wm.cur) : 
       show leOpt x wm'.cur
       rw [hcur]; exact h
 
-/-- every first delivery of a run is well-shaped and its end is at or below the watermark -/
+/-- every first delivery of a run is well-shaped, satisfies the gap clause, and its end is at or
+below the watermark -/
 theorem run_firsts (w : SWin) (ops : List Op) (h : Inv w) :
-    ∀ e ∈ (run w ops).2, e.late = false → EmOk w.timeout e ∧ leOpt e.stop (run w ops).1.wm.cur := by
+    ∀ e ∈ (run w ops).2, e.late = false →
+      EmOk w.timeout e ∧ Chain w.timeout e.start e.rows ∧ leOpt e.stop (run w ops).1.wm.cur := by
   induction ops generalizing w with
   | nil => intro e he; cases he
   | cons op ops ih =>
@@ -263,8 +378,7 @@ theorem run_firsts (w : SWin) (ops : List Op) (h : Inv w) :
       | nil => intro x hx; exact hx
       | cons o os ih' => intro x hx; simp only [run]; exact ih' _ x (leOpt_mono_step w' o x hx)
     rcases he with he | he
-    · -- delivered by this very op
-      cases op with
+    · cases op with
       | add k r now =>
         have : e ∈ addEmit w k r now := he
         unfold addEmit at this
@@ -281,65 +395,17 @@ theorem run_firsts (w : SWin) (ops : List Op) (h : Inv w) :
           obtain ⟨hmem, hcur, _⟩ := Tumbling.pop_mem _ _ _ hp
           have hw' : AllOk { w with wm := wm' } := h.hok
           obtain ⟨_, h2, h3, h4, h5, h6⟩ := expire_emissions { w with wm := wm' } y hw' h.htime e he
-          refine ⟨⟨h2, h4, h5, h6⟩, ?_⟩
-          apply hmono
-          show leOpt e.stop wm'.cur
-          rw [hcur]
-          obtain ⟨z, hz, hyz⟩ := h.hchan y hmem
-          exact ⟨z, hz, by omega⟩
+          refine ⟨⟨h2, h4, h5, h6⟩, ?_, ?_⟩
+          · simp only [stepExpire, List.mem_map] at he
+            obtain ⟨s, hs, rfl⟩ := he
+            rw [mem_sortSess, List.mem_filter] at hs
+            exact h.hchain s hs.1
+          · apply hmono
+            show leOpt e.stop wm'.cur
+            rw [hcur]
+            obtain ⟨z, hz, hyz⟩ := h.hchan y hmem
+            exact ⟨z, hz, by omega⟩
     · have := ih (step w op).1 (inv_step w op h) e he hl
-      rw [step_timeout] at this
-      exact this
-
-end Session
-
-namespace Session
-open Wm
-open Tumbling (leOpt)
-
-theorem allChain_step (w : SWin) (op : Op) (h : Inv w) (hc : AllChain w) (hH : NoAcrossGap w op) :
-    AllChain (step w op).1 := by
-  cases op with
-  | add k r now => exact allChain_add w k r now h.hok h.hu hc hH
-  | addNoTs => exact hc
-  | tick idle now => exact hc
-  | deliver =>
-    simp only [step, stepDeliver]
-    split
-    · exact hc
-    · intro s hs
-      simp only [stepExpire, List.mem_filter] at hs
-      exact hc s hs.1
-
-/-- under H every delivered session satisfies the gap clause -/
-theorem run_chain (w : SWin) (ops : List Op) (h : Inv w) (hc : AllChain w) (hH : NoAcrossGapAll w ops) :
-    ∀ e ∈ (run w ops).2, e.late = false → Chain w.timeout e.start e.rows := by
-  induction ops generalizing w with
-  | nil => intro e he; cases he
-  | cons op ops ih =>
-    obtain ⟨hH1, hH2⟩ := hH
-    intro e he hl
-    simp only [run, List.mem_append] at he
-    rcases he with he | he
-    · cases op with
-      | add k r now =>
-        have : e ∈ addEmit w k r now := he
-        unfold addEmit at this
-        split at this
-        · simp only [List.mem_singleton] at this; rw [this] at hl; cases hl
-        · cases this
-      | addNoTs => cases he
-      | tick idle now => cases he
-      | deliver =>
-        simp only [step, stepDeliver] at he
-        split at he
-        · cases he
-        · rename_i y wm' hp
-          simp only [stepExpire, List.mem_map] at he
-          obtain ⟨s, hs, rfl⟩ := he
-          rw [mem_sortSess, List.mem_filter] at hs
-          exact hc s hs.1
-    · have := ih (step w op).1 (inv_step w op h) (allChain_step w op h hc hH1) hH2 e he hl
       rw [step_timeout] at this
       exact this
 
